@@ -5,7 +5,7 @@
 From Coq Require Import ZArith Bool String List Reals.
 From Flocq Require Import Core BinarySingleNaN.
 Require Import NixV.Base.Prelude NixV.Base.F64 NixV.Base.F64Facts NixV.Gen.GenDimensions.
-Require NixV.Access.Retrieval NixV.Access.VecUnits NixV.Gen.GenPairs NixV.Axis.PairBridge.
+Require NixV.Access.Retrieval NixV.Access.VecUnits NixV.Gen.GenPairs NixV.Axis.PairBridge NixV.Gen.GenRange NixV.Axis.RangeBridge.
 Require Import NixV.Axis.AxisSpec NixV.Axis.AxisSpecProofs NixV.Axis.SampledHand NixV.Axis.SearchProofs
                NixV.Axis.SampledProofs NixV.Axis.IntAxisProofs NixV.Axis.RangeModel NixV.Axis.RangeProofs
                NixV.Axis.RoundTrip NixV.Axis.Totality.
@@ -173,3 +173,10 @@ Proof.
   - exact PairBridge.range_pair_generated.
 Qed.
 Print Assumptions C07_pair_conversions_are_generated.
+
+(** * the range conversion regenerated from src/Dimensions.cpp on this run (iterators as indices, [*it] as a checked
+    access, std::lower_bound as [lower_bound]) IS the function the theorems above speak about *)
+Theorem C07_range_conversion_is_generated : forall position ticks matching,
+  GenRange.getIndex_gen position ticks matching = getIndex position ticks matching.
+Proof. exact RangeBridge.getIndex_generated. Qed.
+Print Assumptions C07_range_conversion_is_generated.
